@@ -1,14 +1,7 @@
 (* G09 — C10: per-stream FIFO for every history (pair level). *)
 From FwdLib Require Import Bytes.
-From G09 Require Import Tables H2Relay Ledger FlowBasics WinProofs PairBasics PairWin FifoProofs.
+From G09 Require Import Tables H2Relay Ledger FlowBasics WinProofs PairBasics Lift PairWin FifoProofs.
 Open Scope N_scope.
-
-(* the queued frames among what was written *)
-Definition oqs (l : list oframe) : list qframe := flat_map (fun o => match o with OQ q => [q] | OW _ => [] end) l.
-Lemma oqs_oq l : oqs (oq l) = l.
-Proof. unfold oqs, oq. induction l as [|q r IH]; cbn [map flat_map app]; [reflexivity|rewrite IH; reflexivity]. Qed.
-Lemma oqs_ow l : oqs (ow l) = [].
-Proof. unfold oqs, ow. induction l as [|q r IH]; cbn [map flat_map app]; [reflexivity|exact IH]. Qed.
 
 (* over a trace: frames released towards x, and frames the relay sending towards x has queued *)
 Definition emitted_to (x : side) (tr : list tstep) : list qframe := flat_map (fun t => oqs (oframes_to x t)) tr.
@@ -24,31 +17,34 @@ Section Codec.
 
   Notation relay := (relay dstate estate).
   Notation pair := (pair dstate estate).
+  Notation pcore := (pcore dec dresize).
   Notation pstep := (pstep dec enc dresize eresize).
   Notation run := (H2Relay.run dec enc dresize eresize).
 
   Lemma apply_settings_fifo : forall l orders (peer : relay) acc,
     QInv (r_flow peer) ->
-    exists em, snd (fst (apply_settings dresize eresize l orders peer acc)) = acc ++ em /\
-      Fifo (r_flow peer) [] (r_flow (fst (fst (apply_settings dresize eresize l orders peer acc)))) em.
+    exists scr, snd (fst (apply_settings dresize l orders peer acc)) = acc ++ scr /\
+      Fifo (r_flow peer) [] (r_flow (fst (fst (apply_settings dresize l orders peer acc)))) (oqs scr).
   Proof.
     induction l as [|[k v] rest IH]; intros orders peer acc HQ; cbn [apply_settings].
     - exists []. cbn [fst snd]. rewrite app_nil_r. split; [reflexivity|apply Fifo_refl].
     - destruct (settings_validated && negb (setting_valid k v)).
       { exists []. cbn [fst snd]. rewrite app_nil_r. split; [reflexivity|apply Fifo_refl]. }
       destruct (k =? 1).
-      { exact (IH orders (mkRelay (r_flow peer) (r_cont peer) (r_hbuf peer)
+      { destruct (IH orders (mkRelay (r_flow peer) (r_cont peer) (r_hbuf peer)
                             (if table_size_resizes_decoder then dresize (r_dst peer) v else r_dst peer)
-                            (eresize (r_est peer) v)) acc HQ). }
+                            (r_est peer)) (acc ++ [OResize v]) HQ) as [scr [Ha Hf]].
+        exists (OResize v :: scr). split; [rewrite Ha, <- app_assoc; reflexivity|exact Hf]. }
       destruct (k =? 4).
       + pose proof (update_init_fifo v (hd [] orders) (r_flow peer) HQ) as H1.
         destruct (update_init v (hd [] orders) (r_flow peer)) as [fl e]. cbn [fst snd] in H1.
-        destruct (IH (tl orders) (with_flow peer fl) (acc ++ e) (proj2 H1 HQ)) as [em [Ha Hf]].
-        exists (e ++ em). split; [rewrite Ha, app_assoc; reflexivity|].
+        destruct (IH (tl orders) (with_flow peer fl) (acc ++ oq e) (proj2 H1 HQ)) as [scr [Ha Hf]].
+        exists (oq e ++ scr). split; [rewrite Ha, app_assoc; reflexivity|].
+        rewrite oqs_app, oqs_oq.
         pose proof (Fifo_seq _ _ _ _ _ _ _ H1 Hf) as H. cbn [app] in H. exact H.
       + destruct (k =? 5); [|exact (IH orders peer acc HQ)].
-        destruct (IH orders (with_flow peer (update_max v (r_flow peer))) acc HQ) as [em [Ha Hf]].
-        exists em. split; [exact Ha|].
+        destruct (IH orders (with_flow peer (update_max v (r_flow peer))) (acc ++ [OSetMax v]) HQ) as [scr [Ha Hf]].
+        exists (OSetMax v :: scr). split; [rewrite Ha, <- app_assoc; reflexivity|].
         pose proof (Fifo_seq _ _ _ _ _ _ _ (update_max_fifo v (r_flow peer)) Hf) as H. cbn [app] in H. exact H.
   Qed.
 
@@ -56,27 +52,27 @@ Section Codec.
   Ltac same_other := rewrite ?res_toward_other, ?res_to_other, ?res_enq; cbn [oqs flat_map app]; apply Fifo_refl.
 
   Lemma step_fifo_from (p : pair) from f orders : frame_wf f -> QInv (r_flow (toward from p)) ->
-    Fifo (r_flow (toward from p)) [] (r_flow (toward from (s_pair (pstep p from f orders))))
-         (oqs (s_to from (pstep p from f orders))).
+    Fifo (r_flow (toward from p)) [] (r_flow (toward from (s_pair (pcore p from f orders))))
+         (oqs (s_to from (pcore p from f orders))).
   Proof.
-    intros Hwf HQ. unfold pstep. cbv zeta.
+    intros Hwf HQ. unfold pcore. cbv zeta.
     destruct f as [id es d flen|id es eh pr frag|id eh frag|id pm eh frag|id pr|id code|ack st|ack d|last code dbg|id inc|].
     - destruct (data_pieces _ _ id d es) as [ps|]; [destruct (enqueue_all ps _) as [fl em]|];
         rewrite res_toward_from, res_to_from, oqs_ow; apply Fifo_refl.
     - destruct eh; [|same_from]. destruct (dec _ frag) as [[fields|] dst']; [|same_from].
-      destruct (r_header _ _ _ _ _ _) as [[[me' em] q]|]; same_from.
+      destruct (r_header _ _ _ _ _) as [[[me' em] q]|]; same_from.
     - destruct eh; [|same_from]. destruct (dec _ _) as [[fields|] dst']; [|same_from].
       cbn [r_cont]. destruct (r_cont _); [|same_from].
-      destruct (complete _ _ _ _) as [[[me' em] q]|]; same_from.
+      destruct (complete _ _ _) as [[[me' em] q]|]; same_from.
     - destruct eh; [|same_from]. destruct (dec _ frag) as [[fields|] dst']; [|same_from].
-      destruct (r_push _ _ _ _ _) as [[[me' em] q]|]; same_from.
+      destruct (r_push _ _ _ _) as [[[me' em] q]|]; same_from.
     - destruct (enqueue_emit _ _) as [fl em]. same_from.
     - destruct (enqueue_emit _ _) as [fl em]. same_from.
     - destruct ack; [same_from|].
       destruct (apply_settings_fifo st orders (toward from p) [] HQ) as [em [Ha Hf]].
-      destruct (apply_settings dresize eresize st orders (toward from p) []) as [[peer' acc'] ok].
+      destruct (apply_settings dresize st orders (toward from p) []) as [[peer' acc'] ok].
       cbn [fst snd app] in *. subst acc'.
-      destruct ok; rewrite res_toward_from, res_to_from, oqs_oq; exact Hf.
+      destruct ok; rewrite res_toward_from, res_to_from; exact Hf.
     - same_from.
     - same_from.
     - pose proof (update_window_fifo id inc (hd [] orders) (r_flow (toward from p)) HQ) as H1.
@@ -86,11 +82,11 @@ Section Codec.
   Qed.
 
   Lemma step_fifo_other (p : pair) from f orders : frame_wf f -> QInv (r_flow (toward (other from) p)) ->
-    Fifo (r_flow (toward (other from) p)) (s_enq (pstep p from f orders))
-         (r_flow (toward (other from) (s_pair (pstep p from f orders))))
-         (oqs (s_to (other from) (pstep p from f orders))).
+    Fifo (r_flow (toward (other from) p)) (s_enq (pcore p from f orders))
+         (r_flow (toward (other from) (s_pair (pcore p from f orders))))
+         (oqs (s_to (other from) (pcore p from f orders))).
   Proof.
-    intros Hwf HQ. unfold pstep. cbv zeta. set (me := toward (other from) p) in *.
+    intros Hwf HQ. unfold pcore. cbv zeta. set (me := toward (other from) p) in *.
     destruct f as [id es d flen|id es eh pr frag|id eh frag|id pm eh frag|id pr|id code|ack st|ack d|last code dbg|id inc|];
       cbn [frame_wf] in Hwf.
     - destruct (data_pieces _ _ id d es) as [ps|] eqn:Ep; [|same_other].
@@ -105,18 +101,18 @@ Section Codec.
       rewrite res_toward_other, res_to_other, res_enq, oqs_oq. cbn [with_flow r_flow].
       pose proof (Fifo_seq _ _ _ _ _ _ _ H0 H1) as H. cbn [app] in H. exact H.
     - destruct eh; [|same_other]. destruct (dec _ frag) as [[fields|] dst']; [|same_other].
-      destruct (r_header _ _ _ _ _ _) as [[[me' em] q]|] eqn:Eh; [|same_other].
+      destruct (r_header _ _ _ _ _) as [[[me' em] q]|] eqn:Eh; [|same_other].
       apply r_header_flow in Eh as [Ee [Hid _]]. cbn [r_flow] in Ee.
       pose proof (enqueue_emit_fifo (r_flow me) q ltac:(congruence) HQ) as H1. rewrite Ee in H1. cbn [fst snd] in H1.
       rewrite res_toward_other, res_to_other, res_enq, oqs_oq. exact H1.
     - destruct eh; [|same_other]. destruct (dec _ _) as [[fields|] dst']; [|same_other].
       cbn [r_cont]. destruct (r_cont me) eqn:Ec; [|same_other].
-      destruct (complete _ _ _ _) as [[[me' em] q]|] eqn:Eh; [|same_other].
+      destruct (complete _ _ _) as [[[me' em] q]|] eqn:Eh; [|same_other].
       apply complete_flow in Eh as [Ee [Hid _]]. cbn [r_flow] in Ee.
       pose proof (enqueue_emit_fifo (r_flow me) q ltac:(congruence) HQ) as H1. rewrite Ee in H1. cbn [fst snd] in H1.
       rewrite res_toward_other, res_to_other, res_enq, oqs_oq. exact H1.
     - destruct eh; [|same_other]. destruct (dec _ frag) as [[fields|] dst']; [|same_other].
-      destruct (r_push _ _ _ _ _) as [[[me' em] q]|] eqn:Eh; [|same_other].
+      destruct (r_push _ _ _ _) as [[[me' em] q]|] eqn:Eh; [|same_other].
       apply r_push_flow in Eh as [Ee [Hid _]]. cbn [r_flow] in Ee.
       pose proof (enqueue_emit_fifo (r_flow me) q ltac:(congruence) HQ) as H1. rewrite Ee in H1. cbn [fst snd] in H1.
       rewrite res_toward_other, res_to_other, res_enq, oqs_oq. exact H1.
@@ -127,7 +123,7 @@ Section Codec.
       destruct (enqueue_emit _ _) as [fl em]. cbn [fst snd] in H1.
       rewrite res_toward_other, res_to_other, res_enq, oqs_oq. exact H1.
     - destruct ack; [same_other|].
-      destruct (apply_settings _ _ _ _ _ _) as [[peer' acc'] ok]. destruct ok; same_other.
+      destruct (apply_settings _ _ _ _ _) as [[peer' acc'] ok]. destruct ok; same_other.
     - same_other.
     - same_other.
     - destruct (update_window _ _ _ _) as [fl em]. same_other.
@@ -135,38 +131,79 @@ Section Codec.
   Qed.
 
   Lemma step_fifo (p : pair) from f orders x : frame_wf f -> QInv (r_flow (toward x p)) ->
-    Fifo (r_flow (toward x p)) (if side_eqb from x then [] else s_enq (pstep p from f orders))
-         (r_flow (toward x (s_pair (pstep p from f orders))))
-         (oqs (s_to x (pstep p from f orders))).
+    Fifo (r_flow (toward x p)) (if side_eqb from x then [] else s_enq (pcore p from f orders))
+         (r_flow (toward x (s_pair (pcore p from f orders))))
+         (oqs (s_to x (pcore p from f orders))).
   Proof.
     destruct (side_cases from x) as [-> | ->].
     - rewrite side_eqb_refl. apply step_fifo_from.
     - rewrite side_eqb_other. apply step_fifo_other.
   Qed.
 
-  Theorem run_fifo : forall evs (p : pair) x, hist_wf evs -> QInv (r_flow (toward x p)) ->
-    Fifo (r_flow (toward x p)) (enqueued_for x (snd (run p evs)))
-         (r_flow (toward x (fst (run p evs)))) (emitted_to x (snd (run p evs))).
+  (* ---- the whole step: released frames are the same up to their (now filled) chunks *)
+  Lemma q_id_strip q : q_id (strip q) = q_id q.
+  Proof. destruct q; reflexivity. Qed.
+
+  Lemma on_cons' s q l : on s (q :: l) = if q_id q =? s then q :: on s l else on s l.
+  Proof. reflexivity. Qed.
+
+  Lemma on_strip_eq s : forall a c, map strip a = map strip c -> map strip (on s a) = map strip (on s c).
   Proof.
-    induction evs as [|e r IH]; intros p x Hwf HQ; [apply Fifo_refl|].
+    induction a as [|x a IH]; intros [|y c] H; cbn [map] in H; try discriminate; [reflexivity|].
+    inversion H as [[Hxy Hr]]. rewrite !on_cons'.
+    assert (Hid : q_id x = q_id y) by (rewrite <- (q_id_strip x), <- (q_id_strip y), Hxy; reflexivity).
+    rewrite Hid. destruct (q_id y =? s); cbn [map]; rewrite ?Hxy, (IH c Hr); reflexivity.
+  Qed.
+
+  Definition FifoS (fl : flow) (enq : list qframe) (fl' : flow) (em : list qframe) : Prop :=
+    (forall s, map strip (on s em) ++ map strip (queue_of fl' s) = map strip (queue_of fl s) ++ map strip (on s enq)) /\
+    (QInv fl -> QInv fl').
+
+  Lemma Fifo_FifoS fl enq fl' em em' : Fifo fl enq fl' em -> map strip em' = map strip em -> FifoS fl enq fl' em'.
+  Proof.
+    intros [H HQ] He. split; [|exact HQ]. intro s.
+    rewrite (on_strip_eq s em' em He), <- !map_app, (H s). reflexivity.
+  Qed.
+
+  Lemma FifoS_refl fl : FifoS fl [] fl [].
+  Proof. split; [intro s; cbn; rewrite app_nil_r; reflexivity|auto]. Qed.
+
+  Lemma FifoS_seq fl enq1 fl1 em1 enq2 fl2 em2 :
+    FifoS fl enq1 fl1 em1 -> FifoS fl1 enq2 fl2 em2 -> FifoS fl (enq1 ++ enq2) fl2 (em1 ++ em2).
+  Proof.
+    intros [H1 Q1] [H2 Q2]. split; [|auto].
+    intro s. rewrite !on_app, !map_app, <- app_assoc, H2, app_assoc, H1, <- app_assoc. reflexivity.
+  Qed.
+
+  Lemma step_fifoS (p : pair) from f orders x : frame_wf f -> QInv (r_flow (toward x p)) ->
+    s_status (pstep p from f orders) = Ok ->
+    FifoS (r_flow (toward x p)) (if side_eqb from x then [] else s_enq (pstep p from f orders))
+          (r_flow (toward x (s_pair (pstep p from f orders))))
+          (oqs (s_to x (pstep p from f orders))).
+  Proof.
+    intros Hwf HQ Hok. pose proof (step_fifo p from f orders x Hwf HQ) as H0.
+    rewrite (pstep_enq dstate estate dec enc dresize eresize p from f orders Hok).
+    rewrite (proj1 (pstep_flow dstate estate dec enc dresize eresize p from f orders x)).
+    destruct (pstep_out dstate estate dec enc dresize eresize p from f orders x) as [Hp | [_ Hd]]; [|congruence].
+    exact (Fifo_FifoS _ _ _ _ _ H0 (Prep_oqs _ _ Hp)).
+  Qed.
+
+  Theorem run_fifo : forall evs (p : pair) x, hist_wf evs -> QInv (r_flow (toward x p)) ->
+    all_ok (snd (run p evs)) ->
+    FifoS (r_flow (toward x p)) (enqueued_for x (snd (run p evs)))
+          (r_flow (toward x (fst (run p evs)))) (emitted_to x (snd (run p evs))).
+  Proof.
+    induction evs as [|e r IH]; intros p x Hwf HQ Hok; [apply FifoS_refl|].
     inversion Hwf as [|? ? He Hr]; subst. destruct e as [from f orders]. cbn [e_frame] in He.
-    cbn [H2Relay.run e_from e_frame e_orders].
-    pose proof (step_fifo p from f orders x He HQ) as H1.
-    assert (Hone : forall ts (p' : pair), Fifo (r_flow (toward x (s_pair (pstep p from f orders)))) (enqueued_for x ts) (r_flow (toward x p')) (emitted_to x ts) ->
-              Fifo (r_flow (toward x p))
-                (enqueued_for x (mkT (mkEv from f orders) (s_toC (pstep p from f orders)) (s_toS (pstep p from f orders))
-                                     (s_status (pstep p from f orders)) (s_enq (pstep p from f orders)) :: ts))
-                (r_flow (toward x p'))
-                (emitted_to x (mkT (mkEv from f orders) (s_toC (pstep p from f orders)) (s_toS (pstep p from f orders))
-                                     (s_status (pstep p from f orders)) (s_enq (pstep p from f orders)) :: ts))).
-    { intros ts p' H2. unfold enqueued_for, emitted_to. cbn [flat_map t_ev e_from t_enq].
-      replace (oframes_to x (mkT _ _ _ _ _)) with (s_to x (pstep p from f orders)) by (destruct x; reflexivity).
-      exact (Fifo_seq _ _ _ _ _ _ _ H1 H2). }
-    destruct (s_status (pstep p from f orders)) eqn:Est.
-    - specialize (IH (s_pair (pstep p from f orders)) x Hr (proj2 H1 HQ)).
-      destruct (run (s_pair (pstep p from f orders)) r) as [p' ts]. cbn [fst snd] in *. rewrite <- Est. exact (Hone ts p' IH).
-    - cbn [fst snd]. rewrite <- Est. apply Hone. apply Fifo_refl.
-    - cbn [fst snd]. rewrite <- Est. apply Hone. apply Fifo_refl.
-    - cbn [fst snd]. rewrite <- Est. apply Hone. apply Fifo_refl.
+    cbn [H2Relay.run e_from e_frame e_orders] in *.
+    destruct (s_status (pstep p from f orders)) eqn:Est;
+      try (cbn [snd] in Hok; inversion Hok as [|? ? Hbad _]; cbn [t_status] in Hbad; congruence).
+    pose proof (step_fifoS p from f orders x He HQ Est) as H1.
+    destruct (run (s_pair (pstep p from f orders)) r) as [p' ts] eqn:Erun. cbn [fst snd] in *.
+    inversion Hok as [|? ? _ Hok']; subst.
+    specialize (IH (s_pair (pstep p from f orders)) x Hr (proj2 H1 HQ)). rewrite Erun in IH. cbn [fst snd] in IH.
+    unfold enqueued_for, emitted_to. cbn [flat_map t_ev e_from t_enq].
+    replace (oframes_to x (mkT _ _ _ _ _)) with (s_to x (pstep p from f orders)) by (destruct x; reflexivity).
+    exact (FifoS_seq _ _ _ _ _ _ _ H1 (IH Hok')).
   Qed.
 End Codec.
